@@ -879,3 +879,61 @@ def rule_trunc_finals(P):
         r.add(f, arcs[0] if arcs else lp, ok, "" if ok else f"layer arcs must go from {t} to {t}+1 for every {t} < {bound}", construct="truncate_length: layer arcs")
     r.min_instances = 2
     return r
+
+
+
+# ---------------------------------------------------------------- COMPOSE-ARCS
+
+
+def _neg_fact(p):
+    if " == " in p:
+        return p.replace(" == ", " != ", 1)
+    if " != " in p:
+        return p.replace(" != ", " == ", 1)
+    return p[4:] if p.startswith("not ") else "not " + p
+
+
+def rule_compose_arcs(P):
+    r = RuleResult("COMPOSE-ARCS", "grammar ∘ transducer: every arc of the transducer is a base item of pass 1 (_compose_bottom_up_epsilon) and "
+                   "a rule of pass 2 (__matmul__) — the loops over fst.arcs() emit for every arc (no label/state filter; the ε-output split "
+                   "of pass 2 is a two-way partition). An arc left out by label or end points (an ε:ε self-loop, say) loses the weight of "
+                   "every path through it; pass 2 enumerates bodies from pass 1's items, so the two must agree",
+                   "each transducer arc contributes to the composition exactly once")
+    n_sites = 0
+    for q in ("cfg.py::CFG._compose_bottom_up_epsilon", "cfg.py::CFG.__matmul__"):
+        f = P.func(q)
+        r.looked_at(f)
+        loops = [n for n in walk_live(f.node) if isinstance(n, ast.For) and isinstance(n.iter, ast.Call) and W.call_name(n.iter) == "arcs"]
+        if len(loops) != 1:
+            r.undecided(f, f.node, f"{len(loops)} loops over the transducer's arcs (expected 1)", construct=f"{f.name}: loop over fst.arcs()")
+            continue
+        lp = loops[0]
+        wvar = norm(lp.target.elts[-1]) if isinstance(lp.target, ast.Tuple) and len(lp.target.elts) == 4 else None
+        sites = [c for c in walk_live(lp) if isinstance(c, ast.Call) and isinstance(c.func, ast.Attribute) and c.func.attr == "add" and W._within(c, lp)]
+        if not sites:
+            r.undecided(f, lp, "no .add site in the loop over the arcs", construct=f"{f.name}: loop over fst.arcs()")
+            continue
+        fs = [frozenset(W.cfacts(f.node, c)) for c in sites]
+        n_sites += len(sites)
+        if any(wvar and wvar != "_" and wvar in {t.id for t in ast.walk(ast.parse(x, mode="eval")) if isinstance(t, ast.Name)} for s_ in fs for x in s_):
+            r.undecided(f, lp, f"an arc is emitted depending on its weight ({sorted(map(sorted, fs))}); not a label/state filter", construct=f"{f.name}: loop over fst.arcs()")
+            continue
+        if len(fs) == 1:
+            ok = not fs[0]
+        elif len(fs) == 2 and len(fs[0]) == 1 and len(fs[1]) == 1:
+            ok = _neg_fact(next(iter(fs[0]))) == next(iter(fs[1]))
+        elif len(fs) == 2 and min(map(len, fs)) == 1 and _neg_fact(next(iter(min(fs, key=len)))) in max(fs, key=len):
+            ok = False  # if p: emit / elif q: emit — arcs with (not p and not q) emit nothing
+        else:
+            common = frozenset.intersection(*fs)
+            rest = [s_ - common for s_ in fs]
+            if common and len(rest) <= 2 and all(len(x) <= 1 for x in rest):
+                ok = False
+            else:
+                r.undecided(f, lp, f"guards of the emitting sites are not a recognised partition: {sorted(map(sorted, fs))}", construct=f"{f.name}: loop over fst.arcs()")
+                continue
+        r.add(f, sites[0], ok, "" if ok else f"arcs are emitted only under {sorted(map(sorted, fs))}: an arc failing these tests contributes nothing, "
+              f"and every path of the transducer through it is lost from the composition", construct=f"{f.name}: every arc emits",
+              slots=dict(guards=sorted(map(sorted, fs))))
+    r.min_instances = 2
+    return r
